@@ -24,6 +24,8 @@ type CaseC02 struct {
 	Pay  bool    `json:"has_pay"`
 	HPay ref.Hex `json:"helper_payload"`
 	PTS  uint64  `json:"pts"`
+	// Create is called twice with windows of one option slice {payload flag, PUSI, AF flag}: first [:OptWin], then all of it
+	OptWin int `json:"opt_window"`
 }
 
 func genC02(t *rapid.T) CaseC02 {
@@ -49,7 +51,7 @@ func genC02(t *rapid.T) CaseC02 {
 	default:
 		n = rapid.IntRange(0, 200).Draw(t, "n")
 	}
-	c.Data = genBytes(t, n, n, "data")
+	c.Data = genPayloadBytes(t, n, "data")
 	if n > 0 && rapid.IntRange(0, 2).Draw(t, "first-byte-bias") == 0 {
 		c.Data[0] = rapid.SampledFrom([]byte{0x10, 0x02, 0xFF, 0x1F, 0x01, 0x08}).Draw(t, "first-byte")
 	}
@@ -57,7 +59,8 @@ func genC02(t *rapid.T) CaseC02 {
 	c.CC = rapid.IntRange(0, 15).Draw(t, "hcc")
 	c.PUSI = rapid.Bool().Draw(t, "hpusi")
 	c.Pay = rapid.Bool().Draw(t, "hpay")
-	c.HPay = genBytes(t, 0, 200, "hpayload")
+	c.HPay = genPayloadBytes(t, rapid.IntRange(0, 200).Draw(t, "hpayload-n"), "hpayload")
+	c.OptWin = rapid.IntRange(0, 2).Draw(t, "opt-window")
 	c.PTS = genBits(t, 33, "hpts")
 	return c
 }
@@ -228,6 +231,24 @@ func c02Helpers(c CaseC02) *hx.Failure {
 	}
 	if p[3]&0x20 == 0 {
 		return hx.Failf("create-Create+AF", "WithHasAdaptationFieldFlag did not set the flag")
+	}
+	// a caller-owned option slice used twice, first a window of it: the options requested by the second call must all be honoured
+	opts := []func(*packet.Packet){packet.WithHasPayloadFlag, packet.WithPUSI, packet.WithHasAdaptationFieldFlag}
+	if c.OptWin >= 0 && c.OptWin < len(opts) {
+		p = packet.Create(pid, opts[:c.OptWin]...)
+		if f := hdr("Create+window", p, c.OptWin >= 1, true); f != nil {
+			return f
+		}
+		if (p[1]&0x40 != 0) != (c.OptWin >= 2) || p[3]&0x20 != 0 {
+			return hx.Failf("create-Create+window", "Create with the first %d of {payload flag, PUSI, AF flag}: header %x", c.OptWin, p[:4])
+		}
+		p = packet.Create(pid, opts...)
+		if f := hdr("Create+options-again", p, true, true); f != nil {
+			return f
+		}
+		if p[1]&0x40 == 0 || p[3]&0x20 == 0 {
+			return hx.Failf("create-Create+options-again", "Create with {payload flag, PUSI, AF flag} after a call that was given the first %d of the same slice: header %x lacks a requested flag", c.OptWin, p[:4])
+		}
 	}
 	p = packet.CreateTestPacket(pid, cc, c.PUSI, c.Pay)
 	if f := hdr("CreateTestPacket", p, c.Pay, true); f != nil {
